@@ -12,7 +12,9 @@ package main
 import (
 	"context"
 	"fmt"
+	"os"
 	"runtime"
+	"strings"
 	"sync"
 	"time"
 
@@ -29,6 +31,7 @@ type scenario struct {
 var scenarios = []scenario{
 	{"late-feedback-silences-newer-op", runLateFeedback},
 	{"restart-recovery-skips-op-below-local-high-water", runHighWater},
+	{"restart-recovery-misses-op-at-or-above-high-water", runHighWater},
 	{"restart-forgets-unpropagated-own-write", runRestartForgets},
 	{"stale-lease-commit-overwrites-newer-op", runStaleLease},
 	{"recovery-applies-older-op-over-newer", runRecoveryOrder},
@@ -58,9 +61,16 @@ func layerDirected(h *harness.H) {
 			defer wg.Done()
 			for j := range jobs {
 				sc := &scenarios[j.s]
+				if noQuiesce.Load() >= 6 {
+					h.Inconclusive("directed:skipped-after-repeated-no-quiescence")
+					continue
+				}
 				r := h.Rand("directed", j.c)
 				h.Eval()
 				t, inc := sc.run(context.Background(), h, j.c, r, sc)
+				if strings.HasPrefix(inc, "no-quiescence") {
+					noQuiesce.Add(1)
+				}
 				if inc != "" {
 					h.Inconclusive("directed:" + sc.name + ":" + inc)
 					fmt.Printf("NOTE: directed case %d (%s) inconclusive: %s\n", j.c, sc.name, inc)
@@ -73,8 +83,12 @@ func layerDirected(h *harness.H) {
 		}()
 	}
 	// case index = variant*len(scenarios)+scenario, so a replay selects one schedule
+	only := os.Getenv("VERIF_SCENARIO") // experiments: run one schedule kind only
 	for v := 0; v < per; v++ {
 		for s := range scenarios {
+			if only != "" && scenarios[s].name != only {
+				continue
+			}
 			c := v*len(scenarios) + s
 			if h.Skip("directed", c) {
 				continue
@@ -184,7 +198,12 @@ func runHighWater(ctx context.Context, h *harness.H, c int, r *prng.R, sc *scena
 	X := r.Intn(nodes)
 	Y := (X + 1 + r.Intn(nodes-1)) % nodes
 	m := r.Range(3, 8)
-	y0 := r.Range(0, m-2)
+	y0 := r.Range(0, m-2) // Y's write while X is down gets version y0+1 < m = X's high-water
+	if sc.name == "restart-recovery-misses-op-at-or-above-high-water" {
+		// control: the version written while X is down is equal to or above X's mark, so
+		// the recovery request covers it
+		y0 = m - 1 + r.Range(0, 2)
+	}
 	cl, err := aspenkit.OpenCluster(ctx, r, aspenkit.ClusterParams{Nodes: nodes})
 	if err != nil {
 		return nil, "open:" + err.Error()
@@ -432,15 +451,21 @@ func runOverwriteAfterConvergence(ctx context.Context, h *harness.H, c int, r *p
 		if !w1.OK {
 			return t, "write:" + w1.Err
 		}
-		if !cl.WaitAll(ctx, ks.Name, wd, func(s aspenkit.KeyState) bool { return s.Present && s.Value == w1.Value }) {
-			return t, "v1-did-not-spread"
+		if !cl.WaitAll(ctx, ks.Name, 5*time.Second, func(s aspenkit.KeyState) bool { return s.Present && s.Value == w1.Value }) {
+			// the first value never reached some node: let the oracle look at it after
+			// observed quiescence instead of writing on
+			break
 		}
 		time.Sleep(time.Duration(r.I64n(int64(12*cl.P.KVInterval) + 1)))
 		if w := cl.DoWrite(ctx, t.Hist, ks, r.Chance(1, 4), 0); !w.OK {
 			return t, "write:" + w.Err
 		}
 	}
-	return t, finish(h, c, sc, t, fmt.Sprintf("n%d", nodes))
+	var ls string
+	for _, ks := range keys {
+		ls += fmt.Sprint(ks.Leader)
+	}
+	return t, finish(h, c, sc, t, fmt.Sprintf("n%d L%s", nodes, ls))
 }
 
 // --- fault-free: writes racing a node join -------------------------------------------
@@ -450,7 +475,8 @@ func runWriteDuringJoin(ctx context.Context, h *harness.H, c int, r *prng.R, sc 
 	nodes := r.Range(2, 3)
 	W := r.Intn(nodes)
 	nk := r.Range(2, 5)
-	cl, err := aspenkit.OpenCluster(ctx, r, aspenkit.ClusterParams{Nodes: nodes})
+	ci := prng.Pick(r, []time.Duration{10, 30, 60}) * time.Millisecond // membership gossip interval
+	cl, err := aspenkit.OpenCluster(ctx, r, aspenkit.ClusterParams{Nodes: nodes, ClusterInterval: ci})
 	if err != nil {
 		return nil, "open:" + err.Error()
 	}
@@ -493,5 +519,5 @@ func runWriteDuringJoin(ctx context.Context, h *harness.H, c int, r *prng.R, sc 
 	if !cl.WaitMembership(wd) {
 		return t, "membership-did-not-converge"
 	}
-	return t, finish(h, c, sc, t, fmt.Sprintf("n%d W%d k%d", nodes, W, nk))
+	return t, finish(h, c, sc, t, fmt.Sprintf("n%d W%d k%d ci%s gap%s lead%s", nodes, W, nk, ci, gap.Round(time.Millisecond), lead.Round(time.Millisecond)))
 }
